@@ -38,6 +38,19 @@ def one(rec, hub, seed, tier, i):
     st = S.lm_state(lm)
     st["prms"] = {k: np.array(v, dtype=float) for k, v in cfg["truth"].items()}
     S.check_tables(rec, st, sf, pdf, "C08", where="driver ground truth")
+    if i % 3 == 0:
+        # re-parameterisation: new objects, then the SAME objects with values changed in place; tables must follow what was passed
+        objs = {k: fd.FlodymArray(dims=cfg["dims"], values=np.array(v) * 1.25) for k, v in cfg["truth"].items()}
+        lm.set_prms(**objs)
+        np.asarray(lm.sf)
+        new_truth = {}
+        for k, o in objs.items():
+            o.values[...] = np.array(cfg["truth"][k]) * (1.5 if k in ("mean", "weibull_scale") else 1.1)
+            new_truth[k] = np.array(o.values, dtype=float)
+        lm.set_prms(**objs)
+        st2 = S.lm_state(lm)
+        st2["prms"] = new_truth
+        S.check_tables(rec, st2, np.asarray(lm.sf), np.asarray(lm.pdf), "C08", where="after set_prms with the same objects changed in place")
     rec.event("parameter-shapes", sig="|".join(f"{k}:{''.join(v[0])}" for k, v in cfg["given"].items()) + f"|{cfg['shape']}", cls="param-dims|" + ",".join(str(len(v[0])) for v in cfg["given"].values()))
 
 
